@@ -179,6 +179,10 @@ func (b *CircuitBreaker) tryAcquire() (allowed, acquired bool) {
 		}
 
 		b.toHalfOpen()
+		if b.State() != HalfOpen {
+			// lost the race against a failed probe that re-opened the breaker
+			return false, false
+		}
 	}
 
 	select {
@@ -283,15 +287,30 @@ func (b *CircuitBreaker) transitionTo(target State) bool {
 	b.mu.Lock()
 	defer b.mu.Unlock()
 
-	if State(b.state.Load()) == target {
+	current := State(b.state.Load())
+	if current == target {
 		return false
 	}
 
 	switch target {
 	case Open:
 		b.openUntil.Store(b.opts.clock().Add(b.opts.openTimeout).UnixNano())
-	case HalfOpen, Closed:
-		// reset the window so probing and recovery evaluate fresh samples
+	case HalfOpen:
+		// callers decide to probe outside the lock: re-validate here, because a
+		// concurrent caller may have probed, failed and re-opened the breaker
+		// with a new deadline in the meantime
+		if current != Open || b.opts.clock().UnixNano() < b.openUntil.Load() {
+			return false
+		}
+		// reset the window so probing evaluates fresh samples
+		b.buckets.reset()
+	case Closed:
+		// only a probing breaker recovers: a failure recorded after the caller
+		// read the state has re-opened it
+		if current != HalfOpen {
+			return false
+		}
+		// reset the window so recovery evaluates fresh samples
 		b.buckets.reset()
 	}
 
